@@ -20,7 +20,11 @@ NAMES = ["a", "b", "c", "x1", "_p", "data", "values", "items", "0", "12", "é", 
          # look like store internals or numbers with leading zeros
          "007", "c", "0.0", "-1"]
 STRS = ["", "a", "hello world", "é名", "a.b/c", "it's \"q\"", "0", "None", "true", " lead", "x" * 40,
-        "line\nbreak", "tab\t", "{}", "[1]", "1e5", "nan"]
+        "line\nbreak", "tab\t", "{}", "[1]", "1e5", "nan",
+        # strings that look like encodings of other values (in-band sentinels of JSON / YAML / repr)
+        "NaN", "Infinity", "-Infinity", "inf", "-inf", "null", "NULL", "false", "True", "False", "~",
+        "undefined", "1.0", "-0", "+1", " 1", "0x10", "1_000", "\uff11\uff12", "1e400", "b'x'", "()",
+        "__ndarray__", "_autoserialize", "<class 'int'>", "complex(1,2)", "(1+2j)", "Path('x')"]
 INTS = [0, 1, -1, 2, 7, 255, -128, 2 ** 31 - 1, -(2 ** 31), 2 ** 53, 2 ** 53 + 1, -(2 ** 62),
         2 ** 63 - 1, -(2 ** 63), 2 ** 70, -(2 ** 65) - 1]
 SMALL_INTS = [0, 1, -1, 2, 3, 7, 100, -5, 2 ** 31, -(2 ** 40), 2 ** 53]
